@@ -209,6 +209,106 @@ func runSrvRotate() *srvCase {
 	return cs
 }
 
+// runSrvWire (C18): what the sidecar puts on the wire while keys rotate under open streams.  Two streams (partitions a and bb) stay open
+// across three key generations; every record they emit must have the documented shape (60-byte wrapped key, payload + 28 bytes of data,
+// key id _IK_<partition>_svc_prod), must name an intermediate key that is not older than the key lifetime at the moment of the encrypt,
+// and must be decryptable by a reader that only has the record and the key table (a later stream of the same server).
+func runSrvWire() *srvCase {
+	cs := &srvCase{Multi: "wire records across key rotation on open streams"}
+	viol := func(f string, a ...any) { cs.Viol = append(cs.Viol, fmt.Sprintf(f, a...)) }
+	now := int64(1790000000) * int64(time.Second)
+	ae.VerifSetNow(func() time.Time { return time.Unix(0, now) })
+	defer ae.VerifSetNow(time.Now)
+	const life = 100
+	app := server.NewAppEncryption(&server.Options{ServiceName: "svc", ProductID: "prod", Metastore: "memory", KMS: "static",
+		ExpireAfter: life * time.Second, CheckInterval: 10 * time.Second})
+	gs := func(id string) *pb.SessionRequest {
+		return &pb.SessionRequest{Request: &pb.SessionRequest_GetSession{GetSession: &pb.GetSession{PartitionId: id}}}
+	}
+	enc := func(p int) *pb.SessionRequest {
+		return &pb.SessionRequest{Request: &pb.SessionRequest_Encrypt{Encrypt: &pb.Encrypt{Data: srvPayload(p)}}}
+	}
+	dec := func(r *pb.DataRowRecord) *pb.SessionRequest {
+		return &pb.SessionRequest{Request: &pb.SessionRequest_Decrypt{Decrypt: &pb.Decrypt{DataRowRecord: r}}}
+	}
+	type emitted struct {
+		part string
+		p    int
+		rec  *pb.DataRowRecord
+	}
+	var recs []emitted
+	streams := map[string]*chanStream{}
+	for _, part := range []string{"a", "bb"} {
+		st := openStream(app)
+		if r := st.call(gs(part)); r == nil || r.GetErrorResponse() != nil {
+			viol("get-session %s failed: %v", part, r)
+			return cs
+		}
+		streams[part] = st
+	}
+	p := 0
+	for gen := 0; gen < 3; gen++ {
+		for _, part := range []string{"a", "bb", "a"} {
+			p++
+			r := streams[part].call(enc(p))
+			if r == nil || r.GetEncryptResponse() == nil {
+				viol("encrypt %d on the open stream of partition %s was answered with %v", p, part, r)
+				return cs
+			}
+			rec := r.GetEncryptResponse().GetDataRowRecord()
+			recs = append(recs, emitted{part, p, rec})
+			k := rec.GetKey()
+			if k == nil || k.GetParentKeyMeta() == nil {
+				viol("record %d has no key / parent key meta", p)
+				continue
+			}
+			if len(k.GetKey()) != 32+16+12 {
+				viol("record %d: wrapped data key is %d bytes, documented 60 (32-byte key, 16-byte tag, 12-byte nonce)", p, len(k.GetKey()))
+			}
+			if len(rec.GetData()) != len(srvPayload(p))+28 {
+				viol("record %d: data is %d bytes for a %d-byte payload, documented payload+28", p, len(rec.GetData()), len(srvPayload(p)))
+			}
+			if want := "_IK_" + part + "_svc_prod"; k.GetParentKeyMeta().GetKeyId() != want {
+				viol("record %d names key id %q, documented %q", p, k.GetParentKeyMeta().GetKeyId(), want)
+			}
+			age := now/int64(time.Second) - k.GetParentKeyMeta().GetCreated()
+			if age < 0 || age > life {
+				viol("record %d, emitted at %d on a stream open since generation 0, names an intermediate key created at %d: %d s old with a key lifetime of %d s (a reader looking up (KeyId, Created) finds another key than the one that wrapped the data key)",
+					p, now/int64(time.Second), k.GetParentKeyMeta().GetCreated(), age, life)
+			}
+			if d := now/int64(time.Second) - k.GetCreated(); d < 0 || d > 60 {
+				viol("record %d: data key Created %d is not the time of the encrypt (%d)", p, k.GetCreated(), now/int64(time.Second))
+			}
+		}
+		now += int64(130 * time.Second)
+	}
+	for part, st := range streams {
+		if err := st.eof(); err != nil {
+			viol("stream %s ended with %v", part, err)
+		}
+	}
+	// the reader: a later stream per partition, which has nothing but the records and the key table
+	for _, part := range []string{"a", "bb"} {
+		st := openStream(app)
+		if r := st.call(gs(part)); r == nil || r.GetErrorResponse() != nil {
+			viol("reader: get-session %s failed: %v", part, r)
+			continue
+		}
+		for _, e := range recs {
+			if e.part != part {
+				continue
+			}
+			r := st.call(dec(e.rec))
+			if r == nil || r.GetDecryptResponse() == nil || string(r.GetDecryptResponse().GetData()) != string(srvPayload(e.p)) {
+				viol("reader: record %d of partition %s (names key created %d) does not decrypt to its payload: %v", e.p, part,
+					e.rec.GetKey().GetParentKeyMeta().GetCreated(), r)
+			}
+		}
+		st.eof()
+	}
+	return cs
+}
+
 type memStream struct {
 	ctx   context.Context
 	in    []*pb.SessionRequest
@@ -374,6 +474,9 @@ func runSrv(a *args) error {
 		if err := readJSON(a.replay, &rp); err != nil {
 			return err
 		}
+		if len(rp.Case.Multi) >= 4 && rp.Case.Multi[:4] == "wire" {
+			return gen.WriteJSON(a.out, map[string]any{"cases": []*srvCase{runSrvWire()}})
+		}
 		if rp.Case.Multi != "" {
 			for v := 0; v < 4; v++ {
 				out = append(out, runSrvMulti(v))
@@ -384,6 +487,9 @@ func runSrv(a *args) error {
 		cs := &srvCase{Reqs: rp.Case.Reqs}
 		e.run(cs)
 		return gen.WriteJSON(a.out, map[string]any{"cases": []*srvCase{cs}})
+	}
+	if a.extra == "wire" {
+		return gen.WriteJSON(a.out, map[string]any{"cases": []*srvCase{runSrvWire()}})
 	}
 	// exhaustive over the 9-symbol alphabet up to length L, then random longer ones
 	L := 3
